@@ -492,8 +492,12 @@ func runChild(h history) (tr []string, code int, err error) {
 	hj, _ := json.Marshal(h)
 	cmd := exec.Command(os.Args[0], "-history", string(hj))
 	out, rerr := cmd.Output()
+	how := ""
 	if ee, ok := rerr.(*exec.ExitError); ok {
 		code = ee.ExitCode()
+		if code < 0 {
+			how = "#child ended: " + ee.ProcessState.String()
+		}
 	} else if rerr != nil {
 		return nil, 0, rerr
 	}
@@ -501,6 +505,9 @@ func runChild(h history) (tr []string, code int, err error) {
 		if strings.HasPrefix(l, "EV ") {
 			tr = append(tr, l[3:])
 		}
+	}
+	if how != "" {
+		tr = append(tr, how)
 	}
 	return
 }
